@@ -185,6 +185,16 @@ class Extraction:
                     if which == 'stats' and isinstance(r, Agg) and ex.out.get('stats_syms') and len(r.fields) == 4:
                         same = all(isinstance(f, Int) and z3.is_true(z3.simplify(f.t == s_)) for f, s_ in zip(r.fields, ex.out['stats_syms']))
                         return ('return', 'token' if same else 'modified: ' + repr(r)[:80])
+                    if which == 'flush':
+                        # 'token' = the caller gets exactly what the (single) wrapped flush returned
+                        wr = ex.out.get('wrapped_flush_results', [])
+                        if len(wr) == 1:
+                            how, ident = wr[0]
+                            if how == 'ok' and is_variant(r, 'Ok'):
+                                return ('return', 'token')
+                            if how == 'err' and is_variant(r, 'Err') and isinstance(r.fields[0], Native) and r.fields[0].ident == ident:
+                                return ('return', 'token')
+                        return ('return', 'not the wrapped flush result: %s after %r' % (repr(r)[:60], wr))
                     return ('return', 'token' if isinstance(r, Native) else repr(r)[:60])
             except qe.LoopBack as lb:
                 return ('loop', None)
@@ -196,6 +206,9 @@ class Extraction:
             elif status == 'panic':
                 P.add_path(list(ex.ops), ('panic', None))
             elif status == 'cut':
+                if 'try_iter batch' in str(res):
+                    self.bounds_hit = getattr(self, 'bounds_hit', set()) | {'try_iter batches of more than 2 entries are not explored'}
+                    return
                 raise Unsupported('loop bound hit while extracting %s' % which)
             if which in ('queued',):
                 P.results = getattr(P, 'results', []) + [(list(ex.ops), ex.out.get('result'), status, list(ex.pc))]
@@ -298,6 +311,23 @@ def static_checks(x: Extraction, findings):
         if leaf[0] == 'panic':
             fail('C09', 'drop-never-panics', 'dropping a handle can panic: %s' % ' ; '.join(fmt_op(o) for o in ops))
     worker = x.programs['worker']
+    flagged_batch = False
+    for ops, leaf in worker.paths:
+        # entries taken off the queue but not yet handed over live only in the worker's locals: a panic of the wrapped sink
+        # loses all of them except the one being delivered, so the worker may hold at most one
+        inflight = 0
+        for o in ops:
+            if o['kind'] in ('recv', 'try_recv') and o['out'] == 'some':
+                inflight += 1
+                if inflight > 1 and not flagged_batch:
+                    flagged_batch = True
+                    for prop in ('C08', 'C11'):
+                        fail(prop, 'one-entry-in-flight', 'the worker takes a second entry off the queue before the first was handed to the wrapped sink: %s' % ' ; '.join(fmt_op(o2) for o2 in ops[:12]))
+                        findings[-1]['scenario'] = {'kind': 'queue', 'capacity': 4 if x.cap_mode == 'bounded' else None, 'handler': x.handler, 'builder_order': x.order,
+                                                    'steps': [{'do': 'emit'}, {'do': 'wait_enter'}, {'do': 'emit'}, {'do': 'emit'}, {'do': 'emit'},
+                                                              {'do': 'release', 'outcome': 'ok'}, {'do': 'wait_enter'}, {'do': 'release', 'outcome': 'panic'}]}
+            if o['kind'] == 'wrapped_emit':
+                inflight = max(0, inflight - 1)
     for ops, leaf in worker.paths:
         recvd = False
         pending_err = None
@@ -927,7 +957,16 @@ def scenario_from_trace(steps, capv, handler):
     accepted_idx = []      # positions (in `out`) of the emits whose metric entered the queue, in queue order
     nrecv = 0
     cur_emit = None
+    unwind_held = None
     for st in steps:
+        if unwind_held is not None and st['thread'] == unwind_held[0]:
+            # the panicking worker moves again: whatever the producers did since then happened in mid-unwind
+            if unwind_held[2]:
+                out[unwind_held[1]]['hold'] = True
+                out.append({'do': 'release_unwind'})
+            unwind_held = None
+        if unwind_held is not None and st['thread'].startswith('P'):
+            unwind_held[2] = True
         if st['begin']:
             out.append({'do': st['begin']})
         if st['kind'] in ('try_send', 'send_blocking') and st['payload'] == 'some' and st['out'] == 'ok':
@@ -953,6 +992,8 @@ def scenario_from_trace(steps, capv, handler):
             out.append({'do': 'release', 'outcome': 'ok' if st['out'] == 'ok' else ('panic' if st['out'] == 'panic' else 'err:Other')})
             pending_kind = (len(out) - 1, st.get('kind_term')) if st['out'] == 'err' else None
             pending_ok = len(out) - 1 if st['out'] == 'ok' else None
+            if st['out'] == 'panic':
+                unwind_held = [st['thread'], len(out) - 1, False]
             conds = []
         if st['kind'] == 'branch' and pending_ok is not None and st.get('cond') is not None and 'wrapped_ret' in st['cond'].sexpr():
             # the code looks at the count the wrapped sink returned: realise a value that takes this branch
@@ -976,6 +1017,9 @@ def scenario_from_trace(steps, capv, handler):
                 kv = s.model().eval(pending_kind[1], model_completion=True).as_long()
                 inv = {v: k for k, v in IO_ERROR_KINDS.items()}
                 out[pending_kind[0]]['outcome'] = 'err:' + inv.get(kv, 'Other')
+    if unwind_held is not None and unwind_held[2]:
+        out[unwind_held[1]]['hold'] = True
+        out.append({'do': 'release_unwind'})
     return {'kind': 'queue', 'capacity': capv, 'handler': handler, 'steps': out}
 
 
